@@ -35,10 +35,14 @@ type C04Case struct {
 	TermUp  bool     `json:"leader_term_above"`
 	Reqs    []C04Req `json:"requests"`
 	Flavour int      `json:"flavour"`
+	// Fail: the k-th log-store mutation (StoreLogs / DeleteRange made while
+	// handling a request) returns an error once; the leader then sends the same
+	// request again (0 = no fault)
+	Fail int `json:"failing_store_op,omitempty"`
 }
 
 func (c C04Case) String() string {
-	return fmt.Sprintf("F=%v L=%v snap=%d compacted=%v termUp=%v flavour=%d reqs=%v", c.F, c.L, c.Snap, c.Compact, c.TermUp, c.Flavour, c.Reqs)
+	return fmt.Sprintf("F=%v L=%v snap=%d compacted=%v termUp=%v flavour=%d reqs=%v failing-store-op=%d", c.F, c.L, c.Snap, c.Compact, c.TermUp, c.Flavour, c.Reqs, c.Fail)
 }
 
 func c04Payload(index, term uint64) uint64 { return 1000*term + index }
@@ -71,6 +75,8 @@ type c04Result struct {
 	conflict bool
 	overlap  bool
 	boundary bool
+	muts     int  // log-store mutations made while requests were handled
+	faulted  bool // the injected store error hit
 }
 
 func c04Run(c C04Case) c04Result {
@@ -105,7 +111,16 @@ func c04Run(c C04Case) c04Result {
 	}
 	h := New(seed, []string{"a", "b"})
 	var deletes [][2]uint64
+	failedNow := false
 	h.W.FaultPlan = func(op *sim.DiskOp) sim.Decision {
+		if (op.Kind == sim.OpDeleteRange || op.Kind == sim.OpStoreLogs) && op.Site == "appendEntries" {
+			res.muts++
+			if res.muts == c.Fail {
+				failedNow = true
+				res.faulted = true
+				return sim.DoError
+			}
+		}
 		if op.Kind == sim.OpDeleteRange && op.Site == "appendEntries" {
 			deletes = append(deletes, [2]uint64{op.Min, op.Max})
 		}
@@ -137,7 +152,8 @@ func c04Run(c C04Case) c04Result {
 		}
 		return m
 	}
-	for step, q := range c.Reqs {
+	for step := 0; step < len(c.Reqs); step++ {
+		q := c.Reqs[step]
 		req := &raft.AppendEntriesRequest{RPCHeader: Header("a"), Term: T, Leader: []byte("addr-a"), PrevLogEntry: uint64(q.Prev)}
 		if q.Prev > 0 {
 			req.PrevLogTerm = L[q.Prev-1]
@@ -191,6 +207,7 @@ func c04Run(c C04Case) c04Result {
 			res.boundary = true
 		}
 		deletes = deletes[:0]
+		failedNow = false
 		resp, rerr, answered := h.RPC(sim.KAppend, "a", req, nil)
 		desc := fmt.Sprintf("step %d AE(term %d prev=%d/%d entries %d..%d commit=%v)", step, T, q.Prev, req.PrevLogTerm, q.Prev+1, q.End, q.Commit)
 		if !answered || rerr != nil {
@@ -215,6 +232,27 @@ func c04Run(c C04Case) c04Result {
 			if got[k] != v {
 				same = false
 			}
+		}
+		if failedNow && bad == "" {
+			// a store operation failed while this request was handled: it cannot have
+			// been acknowledged; what is left is old or sent content; the leader
+			// repeats the request, judged against what is on disk now
+			if ok {
+				res.viol = append(res.viol, fmt.Sprintf("R1|C04/R1/acknowledged-although-the-log-store-failed|%s: Success=true, log %v", desc, got))
+				break
+			}
+			for k, v := range got {
+				sent := k > q.Prev && k <= q.End && v == L[k-1]
+				if before[k] != v && !sent {
+					res.viol = append(res.viol, fmt.Sprintf("R3|C04/R3/failed-request-left-foreign-content|%s: entry %d/%d, log before %v", desc, k, v, before))
+				}
+			}
+			if len(res.viol) > 0 {
+				break
+			}
+			ref = got
+			step--
+			continue
 		}
 		switch {
 		case bad != "":
@@ -356,6 +394,18 @@ func TestC04Enumerate(t *testing.T) {
 									if r.WantSample() && res.conflict && res.boundary {
 										r.Sample(c.String())
 									}
+									for k := 1; k <= res.muts; k++ {
+										fc := c
+										fc.Fail = k
+										var fr c04Result
+										sim.Bubble(t, func() { fr = c04Run(fc) })
+										r.CaseDistinct(fr.faulted, "log-store-error-then-retry")
+										if len(fr.viol) > 0 {
+											c04Report(r, fc, fr.viol[0])
+											t.Errorf("C04 violation: %s", fr.viol[0])
+											return
+										}
+									}
 								}
 							}
 						}
@@ -412,9 +462,12 @@ func TestC04Random(t *testing.T) {
 			e := rapid.IntRange(p, len(l)+1).Draw(rt, "end")
 			c.Reqs = append(c.Reqs, C04Req{Prev: p, End: e, Commit: rapid.Bool().Draw(rt, "commit")})
 		}
+		if rapid.IntRange(0, 2).Draw(rt, "storeFault") == 0 {
+			c.Fail = rapid.IntRange(1, 6).Draw(rt, "failingOp")
+		}
 		var res c04Result
 		sim.Bubble(t, func() { res = c04Run(c) })
-		r.Case(res.overlap || res.conflict || res.boundary, rep.Hash(c.String()))
+		r.Case(res.overlap || res.conflict || res.boundary, rep.Hash(c.String()), map[bool]string{true: "log-store-error-then-retry", false: "no-store-error"}[res.faulted])
 		if res.conflict && len(c.Reqs) > 1 {
 			r.Sample(c.String())
 		}
